@@ -9,6 +9,7 @@ import os
 import shutil
 import subprocess
 import sys
+import threading
 import time
 from concurrent.futures import ThreadPoolExecutor
 
@@ -79,7 +80,7 @@ def _compile_many(jobs):
 
     def one(j):
         s, o, x = j
-        tmp = o + ".tmp%d" % os.getpid()
+        tmp = o + ".tmp%d.%d" % (os.getpid(), threading.get_ident())
         ok = _run([CXX] + BASE_FLAGS + x + ["-c", s, "-o", tmp], log)
         if ok:
             os.replace(tmp, o)
@@ -150,6 +151,7 @@ def build_harness(names, libs=(), fuzz=False):
     rh, th = repo_hash(), rt_hash()
     out = {}
     jobs = []
+    names = list(dict.fromkeys(names))          # a property may list one harness twice (different variant subsets)
     for n in names:
         hsrc = os.path.join(VERIF, "h", n + ".cpp")
         deps = [hsrc] + _walk(os.path.join(VERIF, "h"), (".h",))
